@@ -166,6 +166,8 @@ func (sgi ShardGroupInfo) TargetShards(mst *MeasurementInfo, ski *ShardKeyInfo, 
 	shards := make([]ShardInfo, 0, len(sgi.Shards))
 	shardKeyAndValue = append(shardKeyAndValue, mst.Name...)
 	for tagGroupIdx := range tagsGroup {
+		// every group of equalities selects its own shard: start again from the measurement name
+		shardKeyAndValue = shardKeyAndValue[:len(mst.Name)]
 		sort.Sort(tagsGroup[tagGroupIdx])
 		i, j := 0, 0
 		for i < len(ski.ShardKey) && j < len(*tagsGroup[tagGroupIdx]) {
